@@ -41,7 +41,10 @@ class BaseRequest:
         for err_cls in (err.__class__, except_class):
             out_err = errors_map.get(err_cls)
             if out_err:
-                err = out_err
+                # the mapped error is one object shared by all requests:
+                # drop the traceback of its previous raise, or tracebacks
+                # (and every request reachable from their frames) pile up
+                err = out_err.with_traceback(None)
                 break
         raise err
 
